@@ -302,6 +302,12 @@ def getItemR (r : Req) (t : ThreadId) (k : Key) : Except Err RVal :=
   | none => .error .typeError
   | some e => (match e.get? k with | some v => .ok v | none => .error .keyError)
 
+/-- `key in env and env[key] in [value]` -/
+def unchanged (env : REnv) (k : Key) (v : RVal) : Bool :=
+  match env.get? k with
+  | some old => pyEq old v
+  | none => false
+
 /-- `BaseRequest.__setitem__`
 ```
 if self._env_get('ombott.request.readonly'): raise KeyError('The environ dictionary is read-only.')
@@ -322,7 +328,7 @@ def setItem (w : World) (t : ThreadId) (i : Nat) (k : Key) (v : RVal) : Except E
       | .error x => (.error x, w)
       | .ok true => (.error .keyError, w)
       | .ok false =>
-        if (match env.get? k with | some old => pyEq old v | none => false) then (.ok (), w)
+        if unchanged env k v then (.ok (), w)
         else
           let w1 := w.setReq i (r.setEnv t (env.set k v))
           match emit w1 t i evChanged [.plain (.str k), v] with
